@@ -264,7 +264,8 @@ impl Resolver {
                 }
             }
             31 => {
-                if va.abs().max(vb.abs()) >= 1e-2 && Self::ok(va) && Self::ok(vb) {
+                // away from the origin and from the branch cut (y = +-0, x < 0)
+                if va.abs().max(vb.abs()) >= 1e-2 && Self::ok(va) && Self::ok(vb) && !(vb < 0.0 && va.abs() < 1e-2) {
                     self.push(Op::Atan2(a, b), va.atan2(vb))
                 } else {
                     self.fallback(a)
@@ -484,7 +485,7 @@ pub fn eval_lib<D: DualNum<F>, F: Flt>(p: &Program, inputs: &[D]) -> Vec<D> {
 
 /// Mirror interpreter over the reference algebra. None = some node left the domain handled by the
 /// reference (the case is then out of domain, never a failure).
-pub fn eval_ref(p: &Program, inputs: &[Jet], is32: bool) -> Option<Vec<Jet>> {
+pub fn eval_ref(p: &Program, inputs: &[Jet], is32: bool, levels: usize) -> Option<Vec<Jet>> {
     let alg = inputs.first()?.alg.clone();
     let mut v: Vec<Jet> = Vec::with_capacity(p.ops.len());
     // a scalar is an exact input for f64 types; for f32 types it is rounded to f32 first by the caller
@@ -504,13 +505,16 @@ pub fn eval_ref(p: &Program, inputs: &[Jet], is32: bool) -> Option<Vec<Jet>> {
             Op::SinCos(a, which) => v[*a].apply(if *which { Fun::Cos } else { Fun::Sin })?,
             Op::Powi(a, n) => {
                 let x = &v[*a];
-                x.powf(*n as f64, 2.0 + (*n as f64).abs())?
+                let dd = alg.depth() as f64;
+                x.powf_lib(*n as f64, 2.0 + 3.0 * dd + (*n as f64).abs(), levels)?
             }
             Op::Powf(a, n) => {
                 let x = &v[*a];
                 let nn = sc(*n).v;
                 let lnx = if x.re().v > 0.0 { x.re().v.ln().abs() } else { 0.0 };
-                x.powf(nn, 6.0 + nn.abs().max(3.0) * lnx)?
+                // the library evaluates x^n as x^(n-3) x x x on every nesting level
+                let dd = alg.depth() as f64;
+                x.powf_lib(nn, 6.0 + 3.0 * dd + (nn.abs() + 3.0 * dd) * lnx, levels)?
             }
             Op::Powd(a, b) => v[*a].powd(&v[*b])?,
             Op::Log(a, b) => v[*a].log(sc(*b).v)?,
